@@ -195,6 +195,10 @@ impl<'a, Traits: ?Sized + Trait, M: MemBuilder> Deref for ElementRef<'a, Traits,
         &self.0
     }
 }
+// ElementRef is a shared (and Clone) reference: it may cross threads only if &AnyVec may.
+unsafe impl<'a, Traits: ?Sized + Trait, M: MemBuilder> Send for ElementRef<'a, Traits, M>
+    where AnyVec<Traits, M>: Sync
+{}
 impl<'a, Traits: ?Sized + Trait, M: MemBuilder> Clone for ElementRef<'a, Traits, M>{
     #[inline]
     fn clone(&self) -> Self {
